@@ -709,7 +709,7 @@ class _Rename(ast.NodeTransformer):
         return n
 
 
-def inline_private_helpers(idx: Index, fi: FunctionInfo, depth: int = 2) -> FunctionInfo:
+def inline_private_helpers(idx: Index, fi: FunctionInfo, depth: int = 2, skip: Optional[Set[str]] = None) -> FunctionInfo:
     """A copy of `fi` in which statements `t = self._h(a, b)`, `return _h(a)`, `self._h(a)` calling a private helper of the same
     module/class with a simple body (no early return) are replaced by the helper's statements (locals renamed, parameters bound).
     Used so that an "extract method" refactor leaves the analysed shape unchanged."""
@@ -732,7 +732,7 @@ def inline_private_helpers(idx: Index, fi: FunctionInfo, depth: int = 2) -> Func
             used_nested.add(fn.id)
             return nested[fn.id]
         name = fn.id if isinstance(fn, ast.Name) else fn.attr if isinstance(fn, ast.Attribute) and isinstance(fn.value, ast.Name) and fn.value.id in ("self", "cls") else None
-        if name is None or not name.startswith("_") or (name.startswith("__") and name.endswith("__")) or name == fi.name:
+        if name is None or not name.startswith("_") or (name.startswith("__") and name.endswith("__")) or name == fi.name or (skip and name in skip):
             return None
         g = m.functions.get(name) if isinstance(fn, ast.Name) else (idx.find_method(fi.cls, name) if fi.cls is not None else None)
         if g is None or g.module is not m or g.is_property:
@@ -853,8 +853,15 @@ def inline_private_helpers(idx: Index, fi: FunctionInfo, depth: int = 2) -> Func
                     skip = set()
                     for q in ast.walk(top):
                         if isinstance(q, (ast.ListComp, ast.GeneratorExp, ast.SetComp, ast.DictComp, ast.Lambda, ast.IfExp, ast.BoolOp)):
+                            # the iterable of the first generator of a list/set/dict comprehension is evaluated exactly once, eagerly
+                            eager = set()
+                            if isinstance(q, (ast.ListComp, ast.SetComp, ast.DictComp)) and id(q) not in skip:
+                                eager = {id(z) for z in ast.walk(q.generators[0].iter)}
+                                for z in ast.walk(q.generators[0].iter):
+                                    if isinstance(z, (ast.ListComp, ast.GeneratorExp, ast.SetComp, ast.DictComp, ast.Lambda, ast.IfExp, ast.BoolOp)):
+                                        eager -= {id(y) for y in ast.walk(z) if y is not z}
                             for z in ast.walk(q):
-                                if z is not q:
+                                if z is not q and id(z) not in eager:
                                     skip.add(id(z))
                     for q in list(ast.walk(top)):
                         if q is top or id(q) in skip or not isinstance(q, ast.Call):
@@ -863,8 +870,8 @@ def inline_private_helpers(idx: Index, fi: FunctionInfo, depth: int = 2) -> Func
                         if g_ is None:
                             continue
                         sb_ = _simple_body(g_)
-                        if sb_ is None or (not sb_[0] and sb_[1] is not None):
-                            continue    # single-expression helpers are β-reduced by Sem.resolve
+                        if sb_ is None or (not sb_[0] and sb_[1] is not None and g_.name not in nested):
+                            continue    # single-expression (module / class level) helpers are β-reduced by Sem.resolve
                         count[0] += 1
                         tname = f"_h{count[0]}__{g_.name.strip('_')}"
                         pre_h.append(ast.copy_location(ast.Assign(targets=[ast.Name(id=tname, ctx=ast.Store())], value=copy.deepcopy(q), lineno=s.lineno), s))
@@ -1294,6 +1301,102 @@ def _block_of(S: Sem, st: ast.stmt) -> Optional[List[ast.stmt]]:
 def _pred_node(S: Sem, st: ast.stmt) -> int:
     """a CFG node from which the definitions reaching *before* `st` can be read: st's own node (reaching is computed on entry)"""
     return S.cfg.node(st)
+
+
+
+class DictEntry:
+    """One way a key/value pair gets into a dict: `key`/`value` are (resolved) expressions; `loops` = [(target, iter)] outer→inner
+    (statement loops and comprehension generators); `conds` = filter tests; `node` = the statement/expression that adds it."""
+    def __init__(self, key: ast.AST, value: ast.AST, loops, conds, node: ast.AST, const_key=None):
+        self.key, self.value, self.loops, self.conds, self.node, self.const_key = key, value, loops, conds, node, const_key
+
+    def __repr__(self) -> str:
+        return f"<{norm(self.key)}: {norm(self.value)} loops={[(norm(t), norm(i)) for t, i in self.loops]} conds={[norm(c) for c in self.conds]}>"
+
+
+def dict_entries(S: Sem, e: ast.AST, at: int, resolve: bool = True) -> Optional[List[DictEntry]]:
+    """Every entry of a dict-valued expression / local: display or dict(...) keywords, a dict comprehension, subscript stores
+    `d[k] = v` and `d.update(<display | dict(...) | comprehension>)` on a local.  None if the construction is not understood
+    (e.g. `**other`, update with an opaque argument)."""
+    def res(x: ast.AST, a: int) -> ast.AST:
+        return S.resolve(x, a) if resolve else x
+
+    def ctx_of(node: ast.AST):
+        loops, conds = [], []
+        x = node
+        while x in S.pm and S.pm[x] is not S.node:
+            par = S.pm[x]
+            if isinstance(par, ast.For) and any(x is y for y in par.body):
+                loops.insert(0, (par.target, par.iter))
+            elif isinstance(par, ast.If):
+                conds.append(par.test if any(x is y for y in par.body) else ast.UnaryOp(op=ast.Not(), operand=par.test))
+            x = par
+        return loops, conds
+
+    def from_expr(v: ast.AST, a: int, loops, conds, node) -> Optional[List[DictEntry]]:
+        if isinstance(v, ast.Dict):
+            out = []
+            for k, val in zip(v.keys, v.values):
+                if k is None:
+                    return None
+                out.append(DictEntry(res(k, a), res(val, a), list(loops), list(conds), node,
+                                     k.value if isinstance(k, ast.Constant) else None))
+            return out
+        if isinstance(v, ast.Call) and call_name(v) == "dict":
+            if v.args:
+                if len(v.args) == 1 and not v.keywords:
+                    return from_expr(v.args[0], a, loops, conds, node)
+                return None
+            out = []
+            for k in v.keywords:
+                if k.arg is None:
+                    return None
+                out.append(DictEntry(ast.Constant(value=k.arg), res(k.value, a), list(loops), list(conds), node, k.arg))
+            return out
+        if isinstance(v, ast.DictComp):
+            lp = list(loops) + [(g.target, g.iter) for g in v.generators]
+            cd = list(conds) + [c for g in v.generators for c in g.ifs]
+            bound = {n.id for g in v.generators for n in ast.walk(g.target) if isinstance(n, ast.Name)}
+            saved = S.keep_names
+            S.keep_names = saved | bound
+            try:
+                return [DictEntry(res(v.key, a), res(v.value, a), lp, cd, node)]
+            finally:
+                S.keep_names = saved
+        return None
+
+    if isinstance(e, ast.Name):
+        ds = S.du.reaching(e.id, at)
+        ds = [d for d in ds if d.kind == "assign"]
+        if len(ds) != 1 or ds[0].value is None:
+            return None
+        v = ds[0].value
+        out = from_expr(v, ds[0].node, *ctx_of(ds[0].stmt), ds[0].stmt)
+        if out is None:
+            return None
+        for st in ast.walk(S.node):
+            if isinstance(st, ast.Assign) and len(st.targets) == 1 and isinstance(st.targets[0], ast.Subscript) and isinstance(st.targets[0].value, ast.Name) \
+                    and st.targets[0].value.id == e.id:
+                a = S.cfg.node(st)
+                lp, cd = ctx_of(st)
+                k = st.targets[0].slice
+                out.append(DictEntry(res(k, a), res(st.value, a), lp, cd, st, k.value if isinstance(k, ast.Constant) else None))
+            elif isinstance(st, ast.Expr) and isinstance(st.value, ast.Call) and isinstance(st.value.func, ast.Attribute) and st.value.func.attr == "update" \
+                    and isinstance(st.value.func.value, ast.Name) and st.value.func.value.id == e.id:
+                c = st.value
+                a = S.cfg.node(st)
+                lp, cd = ctx_of(st)
+                if len(c.args) == 1 and not c.keywords:
+                    sub = from_expr(c.args[0], a, lp, cd, st)
+                elif not c.args:
+                    sub = [DictEntry(ast.Constant(value=k.arg), res(k.value, a), lp, cd, st, k.arg) for k in c.keywords if k.arg]
+                else:
+                    sub = None
+                if sub is None:
+                    return None
+                out += sub
+        return out
+    return from_expr(e, at, [], [], e)
 
 
 def _ancestors(S: Sem, n: ast.AST) -> List[ast.AST]:
